@@ -20,7 +20,7 @@ MANIFEST = {
 }
 
 BOUNDS = {"quick": {"vertices": 3, "links": "2-3", "payload_values": 2}, "thorough": {"vertices": 3, "links": "2-3", "payload_values": 3}}
-TIME_BUDGET = {"quick": 400, "thorough": 3000}
+TIME_BUDGET = {"quick": 400, "thorough": 1200}
 STUBS = ["attribute values: harness class Box with interpreted __eq__ over a symbolic int payload"]
 ASSUMPTIONS = ["attribute values' __eq__ is pure and total", "links are two-ended with two vertex ends",
                "the corresponding traversal's list is taken from the real traversal (C06/C07 decide its correctness)"]
